@@ -279,6 +279,25 @@ def disjuncts(node):
     return split_chain(node)
 
 
+def is_noise(stmt):
+    """statements with no effect on the analysed behaviour: docstrings, print/logging calls, pass"""
+    if isinstance(stmt, ast.Pass):
+        return True
+    if isinstance(stmt, ast.Expr):
+        v = stmt.value
+        if isinstance(v, ast.Constant):
+            return True
+        if isinstance(v, ast.Call):
+            f = norm(v.func)
+            if f == "print" or f.startswith(("logging.", "logger.", "log.", "warnings.warn")):
+                return True
+    return False
+
+
+def effective(stmts):
+    return [s for s in stmts if not is_noise(s)]
+
+
 # ---------------------------------------------------------------------------
 # dispatch exhaustiveness (U5)
 # ---------------------------------------------------------------------------
